@@ -591,7 +591,7 @@ pub fn exec(inp: &[u128]) -> (Vec<u128>, String, String) {
         let mut mirror = None;
         let mut hand: Option<Sub> = None;
         let mut hand_map: HashMap<u64, u64> = HashMap::new();
-        let (mut f4, mut f11, mut sub_after_done) = (false, false, false);
+        let (mut f4, mut sub_after_done) = (false, false);
         let mut tags: Vec<String> = Vec::new();
         let k = case.k.min(case.ops.len());
         for i in 0..=case.ops.len() {
@@ -603,7 +603,6 @@ pub fn exec(inp: &[u128]) -> (Vec<u128>, String, String) {
                     (obs.subscribe(8192), obs.subscribe(8192))
                 };
                 sub_after_done = obs.is_done();
-                f11 = case.incremental && obs.is_done() && !obs.is_empty();
                 if let Some(m) = s2.take_initial() {
                     hand_map = m;
                 }
@@ -729,13 +728,8 @@ pub fn exec(inp: &[u128]) -> (Vec<u128>, String, String) {
             "mid"
         };
         let tag = tags.iter().min_by_key(|t| rank(t)).cloned().unwrap_or_else(|| "none".into());
-        // one signature per known class, so that they occupy few of the driver's report slots
-        let known = match (f4, f11) {
-            (true, true) => "F4:F11:both",
-            (true, false) => "F4:retain-mut-kept",
-            (false, true) => "F11:incr-after-done",
-            _ => "",
-        };
+        // one signature for the known class, so that it occupies few of the driver's report slots
+        let known = if f4 { "F4:retain-mut-kept" } else { "" };
         let sig = if !known.is_empty() {
             known.to_string()
         } else {
@@ -841,7 +835,7 @@ fn g_op(r: &mut Rng, allow_f4: bool) -> Op {
     }
 }
 
-fn g_case(r: &mut Rng, allow_f4: bool, allow_late_incremental: bool) -> CaseIn {
+fn g_case(r: &mut Rng, allow_f4: bool) -> CaseIn {
     let ninit = r.below(7);
     let init = (0..ninit).map(|_| (r.below(KEYS), r.below(100))).collect();
     let nops = r.range(5, 60) as usize;
@@ -863,9 +857,12 @@ fn g_case(r: &mut Rng, allow_f4: bool, allow_late_incremental: bool) -> CaseIn {
         1 => nops,
         _ => r.range(0, nops as u64) as usize,
     };
-    if incremental && !allow_late_incremental {
-        if let Some(p) = first_done {
-            k = k.min(p);
+    // subscriptions made after done(): a random k lands there rarely (done is usually near the end), so
+    // move it there explicitly in one case out of five (both modes; incremental-after-done on a non-empty
+    // map was finding F11)
+    if let Some(p) = first_done {
+        if r.chance(1, 5) {
+            k = (p + 1 + r.below((nops - p) as u64) as usize).min(nops);
         }
     }
     let max = if r.chance(1, 8) { r.range(1, 8) } else { 1000 };
@@ -873,19 +870,10 @@ fn g_case(r: &mut Rng, allow_f4: bool, allow_late_incremental: bool) -> CaseIn {
 }
 
 pub fn gen(r: &mut Rng, i: usize) -> Vec<Vec<u128>> {
-    let mut v = vec![encode(&g_case(r, false, false))];
+    let mut v = vec![encode(&g_case(r, false))];
     if i % 16 == 5 {
         // known class F4: retain closures that change the value of an entry they keep
-        v.push(encode(&g_case(r, true, false)));
-    }
-    if i % 16 == 11 {
-        // known class F11: incremental subscription made after done()
-        let mut c = g_case(r, false, true);
-        c.incremental = true;
-        if let Some(p) = c.ops.iter().position(|o| matches!(o, Op::Done)) {
-            c.k = (p + 1 + r.below((c.ops.len() - p) as u64) as usize).min(c.ops.len());
-        }
-        v.push(encode(&c));
+        v.push(encode(&g_case(r, true)));
     }
     v
 }
